@@ -30,10 +30,14 @@ def exc_class(e: BaseException) -> str:
     return "internal:" + type(e).__name__
 
 
-def try_compile(program: dict, form: str = "schema", **kw):
+DEFAULT_FORM = "schema"    # --replay sets it to the recorded input form
+
+
+def try_compile(program: dict, form: str | None = None, **kw):
     """-> ('ok', CompilationResult) | (error class, exception).  `form` selects which of the input shapes the public API
     accepts is handed over: the whole document (`schema`), its `program` (`program`), or a plain dict dump of the document
     validated again (`dict`) — all three are verified and must behave alike."""
+    form = form or DEFAULT_FORM
     try:
         q = schema(program)
         if form == "program":
@@ -42,6 +46,18 @@ def try_compile(program: dict, form: str = "schema", **kw):
             q = SchemaV1.model_validate(q.model_dump())
     except Exception as e:  # schema-invalid input: not bartiq's business
         return "schema", e
+    if form in ("routine", "routine-twice"):
+        # the fourth input shape: a bartiq.Routine object built by the caller (verification is the caller's business then);
+        # `routine-twice`: the SAME object has already been compiled once — compiling must not have changed it
+        try:
+            q = bartiq.Routine.from_qref(q, sympy_backend)
+            if form == "routine-twice":
+                try:
+                    compile_routine(q, **kw)
+                except Exception:
+                    pass
+        except Exception as e:
+            return exc_class(e), e
     try:
         return "ok", compile_routine(q, **kw)
     except Exception as e:
